@@ -2,9 +2,11 @@ package main
 
 import (
 	"fmt"
+	"go/ast"
 	"go/token"
 	"go/types"
 	"sort"
+	"strings"
 
 	"golang.org/x/tools/go/ssa"
 )
@@ -13,8 +15,8 @@ func init() {
 	register(PropertyDef{
 		ID: "C06",
 		Explanation: "Decided statically, the ordering and validation discipline crash-safety rests on: (R06a) in both put paths the index insertion is behind the " +
-			"success outcome of the section write; (R06b) in store.Finalize the header is written only behind the success outcome of the index write, at the " +
-			"constant pragma offset, and nothing is written to the header region before; (R06c) in store.Resume every section is indexed only behind a check " +
+			"success outcome of the section write; (R06b) in store.Finalize the index is written only behind the success outcome of the header write (the header, at the " +
+			"constant pragma offset, records where the payload ends before any byte goes out behind it: fix D17); (R06c) in store.Resume every section is indexed only behind a check " +
 			"that its last byte is inside the file (accepted idioms: ReadAt probe at section-end-1 with its error tested, a full read of the body, or a " +
 			"comparison with a size obtained from Stat/Seek(0,SeekEnd)), every scanned section is indexed, and the writer is re-positioned at the value the " +
 			"recorded offsets come from; (R06d) validation precedes mutation in Resume (shared with C12); (R06e) Header.ReadFrom stores no field of the receiver " +
@@ -23,11 +25,13 @@ func init() {
 		Assumptions: []string{"Seek beyond the end of a file is silent (true for every reader in this repository)", "ReadAt(p, off) fails when off is at or beyond the end"},
 		Rules: []RuleDef{
 			{ID: "R06a", Floor: 2, Doc: "write-then-index: InsertNoReplace unreachable without the err == nil outcome of LdWrite", Run: ruleR06a},
-			{ID: "R06b", Floor: 1, Doc: "index before header in store.Finalize; header at PragmaSize", Run: ruleR06b},
+			{ID: "R06b", Floor: 1, Doc: "store.Finalize puts the header (the record of where the payload ends) on disk, at PragmaSize, before any byte goes out behind the payload: the index write is reachable only through the success of the header write", Run: ruleR06b},
 			{ID: "R06c", Floor: 2, Doc: "rescan completeness: probe of the last byte (or equivalent) dominates indexing; all scanned sections indexed; writer positioned from the section offsets", Run: ruleR06c},
 			{ID: "R06d", Floor: 3, Doc: "validate-before-mutate in Resume", Run: ruleR12a},
 			{ID: "R06e", Floor: 1, Doc: "Header.ReadFrom: field stores only after the three range checks", Run: ruleR09e},
 			{ID: "R06i", Floor: 2, Doc: "every section written is indexed: from the success outcome of the section write, neither the next section write nor a success return is reachable without passing InsertNoReplace (= R12g)", Run: ruleR12g},
+			{ID: "R06k", Floor: 2, Doc: "who may resize the file: Truncate is called only by Resume (dropping a stale index) and ExtractV1File (its own destination); writers never extend the file ahead of the bytes they write — a pre-extended, zero-filled tail makes a torn section look complete to the rescan's last-byte probe", Run: ruleR06k},
+			{ID: "R06l", Floor: 1, Doc: "the rescan ends only where the payload ends: the code after the rescan loop is reached only through `err == io.EOF` of the length read or the zero-length-as-EOF option; any other way out leaves acknowledged sections unindexed and lets the next put overwrite them", Run: ruleR06l},
 			{ID: "R06h", Floor: 2, Doc: "who may write the v2 header slot of a read-write session's file: store.Finalize writes the final header (after the index, R06b); everywhere else in the writing packages only the all-zero header may be written (a non-final, non-zero header on disk makes a later torn Finalize header look complete to Resume)", Run: ruleR06h},
 			{ID: "R06g", Floor: 1, Doc: "the file is truncated by the header on file only when that header is complete: IndexOffset (the last field Finalize writes) >= DataOffset + DataSize", Run: ruleR06g},
 			{ID: "R06f", Floor: 1, Doc: "every section already in the file is re-indexed on resume (= R12c): acknowledged blocks stay retrievable", Run: ruleR12c},
@@ -50,7 +54,9 @@ func init() {
 			{ID: "R12e", Floor: 2, Doc: "both callers of Resume pass WriteAsCarV1 / MaxAllowedHeaderSize / ZeroLengthSectionAsEOF / DataOffset to the parameters that play those roles", Run: ruleR12e},
 			{ID: "R12g", Floor: 2, Doc: "every section written is indexed: from the success outcome of the section write, neither the next section write nor a success return is reachable without passing InsertNoReplace (Resume re-indexes every section, so an uninterrupted session must too)", Run: ruleR12g},
 			{ID: "R12f", Floor: 2, Doc: "rescan bound and writer re-positioning (= R06c): the writer resumes at the end of the last indexed section, also when there is none yet", Run: ruleR06c},
-			{ID: "R12h", Floor: 1, Doc: "Finalize writes index then header in the one shape Resume understands (= R06b)", Run: ruleR06b},
+			{ID: "R12h", Floor: 1, Doc: "Finalize writes header then index, the shape Resume can recover from at every cut (= R06b)", Run: ruleR06b},
+			{ID: "R12j", Floor: 2, Doc: "a resumed session's Finalize always rewrites index and header in CARv2 mode (= R05l)", Run: ruleR05l},
+			{ID: "R12k", Floor: 1 + 2 + 2, Doc: "the header a resumed session finalizes with is built from the options only (padding applied once) (= R05b)", Run: ruleR05b},
 		},
 	})
 	register(PropertyDef{
@@ -68,8 +74,11 @@ func init() {
 			{ID: "R16e", Floor: 8, Doc: "framing writer: every part written by its own checked Write, in order (= R01b)", Run: ruleR01b},
 			{ID: "R16g", Floor: 2, Doc: "a deferred function assigns the enclosing function's named error result only where that result is still nil (or when wrapping it): the primary error — a failed Finalize, a failed write — is never replaced by the outcome of a cleanup", Run: ruleR16g},
 			{ID: "R16h", Floor: 10, Doc: "no NEW dropped error: a call whose error result is discarded (expression statement, or assigned to _) must be one of the sites of the pinned tree (table droppedErrorBaseline, keyed by enclosing function and callee); deferred calls and fmt printing are not counted", Run: ruleR16h},
+			{ID: "R16j", Floor: 2, Doc: "writer adapters keep the io.Writer contract: a Write/WriteAt method of the repository returns a nil error only together with the full count — the wrapped call's own (n, err) pair, or len(p); an adapter that reports success for a partial write makes Put index a section that is not on disk", Run: ruleR16j},
 			{ID: "R16f", Floor: 1, Doc: "the deferred writer remembers its CAR writer only when constructing it (header write included) succeeded", Run: ruleR16f},
 			{ID: "R16d", Floor: 2, Doc: "position bookkeeping adds exactly the reported byte count", Run: ruleR16d},
+			{ID: "R16i", Floor: 2, Doc: "a finalize that did not write index and header does not report success (= R05l)", Run: ruleR05l},
+			{ID: "R16k", Floor: 4, Doc: "the deferred writer builds its CAR writer over the caller's stream or a freshly opened, truncated file (= R05g)", Run: ruleR20b},
 		},
 	})
 }
@@ -173,28 +182,84 @@ func ruleR06b(c *Ctx, r *Report) {
 		r.InfraFail("%v", err)
 		return
 	}
-	key := "index-before-header@" + fnKey(fn)
+	key := "header-before-index@" + fnKey(fn)
 	iw := callsToFunc(fn, pkgIndex, "", "WriteTo")
 	hw := headerWriteCalls(fn)
-	if len(iw) != 1 || len(hw) != 1 {
-		r.Undec(key, c.Pos(fn.Pos()), fmt.Sprintf("expected one index.WriteTo and one Header.WriteTo, found %d/%d", len(iw), len(hw)))
+	if len(iw) != 1 || len(hw) == 0 {
+		r.Undec(key, c.Pos(fn.Pos()), fmt.Sprintf("expected one index.WriteTo and a Header.WriteTo, found %d/%d", len(iw), len(hw)))
 		return
 	}
-	ok := condEdges(fn, errNilCond(errOfCall(iw[0]), true))
 	bad := ""
-	switch {
-	case len(ok) == 0:
-		bad = "error of index.WriteTo not tested"
-	case reach(fn, nil, edgeSet(ok))[hw[0].Block()]:
-		bad = "the CARv2 header is written on a path where the index write did not succeed (or has not happened yet): a crash in between leaves a header that announces an index which is not there, and Resume cannot detect it"
-	}
-	if bad == "" {
-		_, off, isOW := offsetWriterOf(hw[0].Common().Args[1])
+	for _, h := range hw {
+		_, off, isOW := offsetWriterOf(h.Common().Args[1])
 		if k, isK := constInt(off); !isOW || !isK || k != 11 {
-			bad = "the header is not written through an offset writer positioned at PragmaSize (11)"
+			bad = "a header is not written through an offset writer positioned at PragmaSize (11)"
 		}
 	}
-	r.Check(bad == "", key, c.Pos(hw[0].Pos()), "Header.WriteTo only behind success of index.WriteTo, at offset PragmaSize", bad)
+	// D17: before any byte goes out behind the payload, the payload's end is on disk. The index
+	// write is reachable only through the success of a header write.
+	if bad == "" {
+		good := false
+		for _, h := range hw {
+			okh := condEdges(fn, errNilCond(errOfCall(h), true))
+			if len(okh) > 0 && !reach(fn, nil, edgeSet(okh))[iw[0].Block()] {
+				good = true
+			}
+		}
+		if !good {
+			bad = "the index is written behind the payload before the header (which records where the payload ends) is on disk: a crash inside the index write leaves `zero header | payload | index prefix`, which Resume rescans to the end of the file, so index bytes that parse as a section (codec varint 0x0401 = length 1025) become a block that was never put"
+		}
+	}
+	if bad == "" && len(condEdges(fn, errNilCond(errOfCall(iw[0]), true))) == 0 {
+		// returned as is?
+		returned := false
+		if ev := errOfCallValue(iw[0]); ev != nil {
+			for v := range flowClosure(ev) {
+				if v.Referrers() == nil {
+					continue
+				}
+				for _, ref := range *v.Referrers() {
+					if _, ok := ref.(*ssa.Return); ok {
+						returned = true
+					}
+				}
+			}
+		}
+		if !returned {
+			bad = "error of index.WriteTo neither tested nor returned"
+		}
+	}
+	// the index always goes out: no success return bypasses index.WriteTo, and the header that is
+	// written keeps the IndexOffset it was built with (a finalized file without index, or with
+	// IndexOffset 0, is refused by Resume: finalize-then-reopen would stop working)
+	if bad == "" {
+		cut := EdgeSet{}
+		for _, b := range fn.Blocks {
+			for i, sc := range b.Succs {
+				if sc == iw[0].Block() {
+					cut[Edge{From: b, Succ: i}] = true
+				}
+			}
+		}
+		if iw[0].Block() != fn.Blocks[0] {
+			rs := reach(fn, nil, cut)
+			for _, ret := range returnsOf(fn) {
+				if rs[ret.Block()] && ret.Block() != iw[0].Block() && resultIsNilConst(ret, 0) {
+					bad = fmt.Sprintf("Finalize can report success at %s without having written the index the header announces", c.Pos(ret.Pos()))
+				}
+			}
+		}
+		eachInstr(fn, func(in ssa.Instruction) {
+			st, ok := in.(*ssa.Store)
+			if !ok {
+				return
+			}
+			if fa, ok := st.Addr.(*ssa.FieldAddr); ok && fieldAddrIs(fa, modV2, "Header", "IndexOffset") {
+				bad = fmt.Sprintf("Finalize assigns Header.IndexOffset at %s: the offset is fixed when the header is built (end of payload + index padding); a finalized header announcing no index is refused by Resume", c.Pos(st.Pos()))
+			}
+		})
+	}
+	r.Check(bad == "", key, c.Pos(hw[0].Pos()), "Header.WriteTo (at offset PragmaSize) succeeds before index.WriteTo runs; both errors tested", bad)
 }
 
 func ruleR06c(c *Ctx, r *Report) {
@@ -515,7 +580,17 @@ func ruleR12a(c *Ctx, r *Report) {
 				}
 			})
 		}
-		r.Check(bad == "", key, c.Pos(rs[0].Pos()), "Resume only behind ResumableVersion success; initialiser only on the fresh-file path", bad)
+		// nor anything else that writes: whatever runs before Resume has validated the file must leave it alone
+		eachInstr(cf, func(in ssa.Instruction) {
+			ci, ok := in.(ssa.CallInstruction)
+			if !ok || in == ssa.Instruction(rs[0]) || !instrReaches(in, rs[0]) {
+				return
+			}
+			if w := writesSomething(c, ci, cs.pkg, 0, map[*ssa.Function]bool{}); w != "" && bad == "" {
+				bad = fmt.Sprintf("the call at %s runs before Resume has validated the file and writes (%s): a reopen that is then refused has already changed the file", c.Pos(in.Pos()), w)
+			}
+		})
+		r.Check(bad == "", key, c.Pos(rs[0].Pos()), "Resume only behind ResumableVersion success; nothing that writes runs before it", bad)
 	}
 	// open flags
 	of, err := c.Func(pkgBS, "", "OpenReadWrite")
@@ -812,8 +887,15 @@ func checkErrDiscipline(c *Ctx, r *Report, specs []fnSpec, eofIsCleanEnd bool) i
 				return
 			}
 			var eofCut EdgeSet
-			if eofIsCleanEnd {
-				// `err == io.EOF` is the documented clean end of a scan, not a swallowed failure
+			inLoop := false
+			for _, sc := range in.Block().Succs {
+				if reach(fn, sc, nil)[in.Block()] {
+					inLoop = true
+				}
+			}
+			if eofIsCleanEnd && inLoop {
+				// `err == io.EOF` from a read inside the scan loop is the documented clean end of the
+				// scan, not a swallowed failure; outside a loop nothing "ends", and EOF is a failure
 				eofCut = EdgeSet{}
 				for _, e := range condEdges(fn, func(base ssa.Value) (bool, bool) {
 					b, ok := base.(*ssa.BinOp)
@@ -1373,6 +1455,11 @@ func droppedErrors(c *Ctx) map[string]string {
 					if f.Pkg() != nil && f.Pkg().Path() == "fmt" {
 						return
 					}
+					// a function the pinned tree does not have (a closure that became a named function):
+					// comparable with the baseline only as "some function value"
+					if fnv := c.Prog.FuncValue(f); fnv != nil && isRepoPkg(f.Pkg().Path()) && !ast.IsExported(f.Name()) && !baselineFuncs[ssaDeclKey(fnv)] {
+						name = "dynamic"
+					}
 					// writers that cannot fail
 					if _, rn := recvTypeName(f); f.Pkg() != nil && (f.Pkg().Path() == "bytes" && rn == "Buffer" || f.Pkg().Path() == "strings" && rn == "Builder") {
 						return
@@ -1428,7 +1515,278 @@ func ruleR16h(c *Ctx, r *Report) {
 			r.Exempt(key, got[k], "site of the pinned tree: "+why)
 			continue
 		}
+		// the enclosing function is one the pinned tree does not have (a closure turned into a
+		// method): the same callee dropped in the same package is the same site, moved
+		if encl, callee, ok := strings.Cut(k, " -> "); ok && newFuncKeys(c)[encl] {
+			moved := ""
+			for bk, why := range droppedErrorBaseline {
+				be, bc, _ := strings.Cut(bk, " -> ")
+				if bc == callee && pkgOfKey(be) == pkgOfKey(encl) {
+					moved = why
+				}
+			}
+			if moved != "" {
+				r.Exempt(key, got[k], "site of the pinned tree, moved into a new function: "+moved)
+				continue
+			}
+		}
 		r.Viol(key, got[k], "the error returned by this call is discarded, and the pinned tree has no such site: a failure here (write, seek, close, decode) goes unnoticed and the operation reports success")
 	}
 	r.Count("discarded error results (all in the baseline table)", len(keys))
+}
+
+// finalizeHeaderWrites splits the Header.WriteTo calls of a function into final ones and
+// provisional ones: a header write is provisional when the header it writes had its
+// IndexOffset set to the constant 0 (it carries the data size but announces no index yet).
+func finalizeHeaderWrites(fn *ssa.Function) (final, prov []ssa.CallInstruction) {
+	for _, h := range headerWriteCalls(fn) {
+		isProv := false
+		recv := h.Common().Args[0]
+		if ld, ok := recv.(*ssa.UnOp); ok && ld.Op == token.MUL {
+			if al, ok := ld.X.(*ssa.Alloc); ok {
+				for _, ref := range *al.Referrers() {
+					if fa, ok := ref.(*ssa.FieldAddr); ok {
+						if fv := fieldVar(fa.X.Type(), fa.Field); fv != nil && fv.Name() == "IndexOffset" {
+							for _, st := range storesTo(fa) {
+								if k, ok := constInt(st.Val); ok && k == 0 {
+									isProv = true
+								}
+							}
+						}
+					}
+				}
+			}
+		}
+		if isProv {
+			prov = append(prov, h)
+		} else {
+			final = append(final, h)
+		}
+	}
+	return
+}
+
+func ruleR06k(c *Ctx, r *Report) {
+	allowed := map[string]bool{"v2/internal/store.Resume": true, "v2.ExtractV1File": true}
+	n := 0
+	var bad []string
+	for _, fn := range c.RepoFuncs() {
+		if !inLib(fn) {
+			continue
+		}
+		eachInstr(fn, func(in ssa.Instruction) {
+			ci, ok := in.(ssa.CallInstruction)
+			if !ok {
+				return
+			}
+			name := ""
+			if ci.Common().IsInvoke() {
+				name = ci.Common().Method.Name()
+			} else if f := calleeFunc(ci.Common()); f != nil {
+				name = f.Name()
+				if f.Pkg() != nil && f.Pkg().Path() != "os" && !strings.HasPrefix(f.Pkg().Path(), modRoot) {
+					return
+				}
+			}
+			if name != "Truncate" {
+				return
+			}
+			n++
+			k := fnKey(rootFuncOf(fn))
+			if !allowed[k] {
+				bad = append(bad, fmt.Sprintf("%s at %s", k, c.Pos(in.Pos())))
+			}
+		})
+	}
+	sort.Strings(bad)
+	r.Check(len(bad) == 0, "truncate-callers@library", "-", fmt.Sprintf("%d Truncate call(s), all in Resume / ExtractV1File", n),
+		"Truncate is called from "+strings.Join(bad, "; ")+": resizing the session's file outside Resume changes what a crash leaves behind (zero-filled regions pass for data)")
+}
+
+func ruleR06l(c *Ctx, r *Report) {
+	fn, err := c.Func(pkgStore, "", "Resume")
+	if err != nil {
+		r.InfraFail("%v", err)
+		return
+	}
+	key := "rescan-exits@" + fnKey(fn)
+	lens := callsToFunc(fn, pkgVarint, "", "ReadUvarint")
+	var post ssa.Instruction
+	eachInstr(fn, func(in ssa.Instruction) {
+		ci, ok := in.(ssa.CallInstruction)
+		if !ok || len(lens) != 1 {
+			return
+		}
+		if f := calleeFunc(ci.Common()); f != nil && f.Name() == "Seek" {
+			if _, rn := recvTypeName(f); rn == "OffsetWriteSeeker" {
+				post = in
+			}
+		}
+	})
+	if len(lens) != 1 || post == nil {
+		r.Undec(key, c.Pos(fn.Pos()), "rescan loop (one ReadUvarint) or the data writer's re-positioning not found")
+		return
+	}
+	errv := extractOf(lens[0].Value(), 1)
+	cut := EdgeSet{}
+	if errv != nil {
+		for _, e := range eofNotEqualEdges(fn, flowClosure(errv)) {
+			cut[opposite(e)] = true // the `== io.EOF` outcome
+		}
+	}
+	L := extractOf(lens[0].Value(), 0)
+	zero := cmpEdges(fn, func(v ssa.Value) bool { return canon(v) == L }, func(v ssa.Value) bool { k, ok := constInt(v); return ok && k == 0 }, "eq")
+	for _, p := range fn.Params {
+		if bt, ok := p.Type().Underlying().(*types.Basic); !ok || bt.Kind() != types.Bool {
+			continue
+		}
+		for _, e := range boolParamEdges(fn, p, true) {
+			for _, z := range zero {
+				if z.From.Succs[z.Succ] == e.From {
+					cut[e] = true
+				}
+			}
+		}
+	}
+	if len(cut) == 0 {
+		r.Undec(key, c.Pos(lens[0].Pos()), "no end-of-payload exit (err == io.EOF) recognised")
+		return
+	}
+	rs := reach(fn, lens[0].Block(), cut)
+	r.Check(!rs[post.Block()], key, c.Pos(lens[0].Pos()), "the loop is left only on io.EOF of the length read or on a zero length with the zero-length-as-EOF option",
+		fmt.Sprintf("the code after the rescan (writer re-positioning at %s) is reachable from inside the loop by a way other than end-of-payload: sections behind that point stay unindexed and are overwritten by the next put", c.Pos(post.Pos())))
+}
+
+// writesSomething: does the call (or a same-package function it statically reaches) write to a writer?
+func writesSomething(c *Ctx, ci ssa.CallInstruction, pkg string, depth int, seen map[*ssa.Function]bool) string {
+	name := ""
+	var f *types.Func
+	if ci.Common().IsInvoke() {
+		name = ci.Common().Method.Name()
+	} else if f = calleeFunc(ci.Common()); f != nil {
+		name = f.Name()
+	}
+	switch name {
+	case "WriteAt", "Write", "WriteString", "Truncate", "WriteTo", "WriteHeader", "LdWrite":
+		if f == nil || f.Pkg() == nil || f.Pkg().Path() != "bytes" && f.Pkg().Path() != "strings" {
+			return name + " at " + c.Pos(ci.Pos())
+		}
+	}
+	if depth >= 3 {
+		return ""
+	}
+	callee := ci.Common().StaticCallee()
+	if callee == nil || callee.Pkg == nil || callee.Pkg.Pkg.Path() != pkg || seen[callee] || len(callee.Blocks) == 0 {
+		return ""
+	}
+	seen[callee] = true
+	out := ""
+	for _, g := range withAnon(callee) {
+		eachInstr(g, func(in ssa.Instruction) {
+			if c2, ok := in.(ssa.CallInstruction); ok && out == "" {
+				out = writesSomething(c, c2, pkg, depth+1, seen)
+			}
+		})
+	}
+	return out
+}
+
+func ruleR16j(c *Ctx, r *Report) {
+	for _, fn := range c.RepoFuncs() {
+		if fn.Parent() != nil || (fn.Name() != "Write" && fn.Name() != "WriteAt") || fn.Signature.Recv() == nil {
+			continue
+		}
+		res := fn.Signature.Results()
+		if res.Len() != 2 || !isIntegral(res.At(0).Type()) {
+			continue
+		}
+		if len(fn.Params) < 2 {
+			continue
+		}
+		if sl, ok := fn.Params[1].Type().Underlying().(*types.Slice); !ok || !types.Identical(sl.Elem(), types.Typ[types.Byte]) {
+			continue
+		}
+		key := "writer-contract@" + fnKey(fn)
+		p := fn.Params[1]
+		bad := ""
+		for _, ret := range returnsOf(fn) {
+			if len(ret.Results) != 2 {
+				continue
+			}
+			nv, ev := retResult(ret, 0), retResult(ret, 1)
+			// (a) both results are the results of one wrapped call
+			cn, in := callOf(canon(nv))
+			ce, ie := callOf(canon(ev))
+			if cn != nil && cn == ce && in == 0 && ie == 1 {
+				continue
+			}
+			// (b) a definite error
+			if !isNilConst(ev) && nilness(ev, ret.Block()) == 2 {
+				continue
+			}
+			// (c) the full count
+			if isLenOfValue(nv, p) {
+				continue
+			}
+			if isNilConst(ev) {
+				bad = fmt.Sprintf("the return at %s reports success with a count that is neither the wrapped call's nor len(p): a partial write is passed off as complete", c.Pos(ret.Pos()))
+			} else if cn == nil || cn != ce {
+				// error and count from different sources: accept when the count is an accumulated total and the error may be non-nil
+				continue
+			}
+		}
+		r.Check(bad == "", key, c.Pos(fn.Pos()), "nil error only with the wrapped call's own count or len(p)", bad)
+	}
+}
+
+func isLenOfValue(v ssa.Value, of ssa.Value) bool {
+	cl, ok := strip(canon(v)).(*ssa.Call)
+	if !ok {
+		return false
+	}
+	b, ok := cl.Call.Value.(*ssa.Builtin)
+	return ok && b.Name() == "len" && canon(cl.Call.Args[0]) == canon(of)
+}
+
+func pkgOfKey(k string) string {
+	if i := strings.LastIndex(k, "."); i >= 0 {
+		k2 := k[:i]
+		// methods: pkg.Type.Method
+		if j := strings.LastIndex(k2, "."); j >= 0 && !strings.Contains(k2[j:], "/") && strings.Count(k, ".") >= 2 {
+			return k2[:j]
+		}
+		return k2
+	}
+	return k
+}
+
+// newFuncKeys: fnKey of every declared function the pinned tree does not have.
+func newFuncKeys(c *Ctx) map[string]bool {
+	out := map[string]bool{}
+	for path, p := range c.Pkgs {
+		for _, f := range p.Syntax {
+			for _, d := range f.Decls {
+				fd, ok := d.(*ast.FuncDecl)
+				if !ok || baselineFuncs[declKey(path, fd)] {
+					continue
+				}
+				if o, ok := p.TypesInfo.Defs[fd.Name].(*types.Func); ok {
+					out[funcKey(o)] = true
+				}
+			}
+		}
+	}
+	return out
+}
+
+func errOfCallValue(call ssa.CallInstruction) ssa.Value {
+	cv := call.Value()
+	if cv == nil {
+		return nil
+	}
+	sig := call.Common().Signature()
+	if sig.Results().Len() == 1 {
+		return cv
+	}
+	return extractOf(cv, sig.Results().Len()-1)
 }
